@@ -1312,7 +1312,13 @@ Section Model.
               match t with
               | ONormal =>
                 let m := box_alloc mo m in
-                (upd o (fun x => x <| o_cleaner := Some mo |>) m, mo, ONormal)
+                (* the Option is checked again after Cc::new returned: the collection it may have
+                   started can have run a nested register on this very Cleaner; the (empty) map
+                   just created is then dropped and the existing one is used *)
+                match get m o ≫= o_cleaner with
+                | Some existing => let '(m, r) := rec (KDropCc mo) m in (m, existing, r)
+                | None => (upd o (fun x => x <| o_cleaner := Some mo |>) m, mo, ONormal)
+                end
               | OPanic =>
                 let '(m, r) := unwinding (rec (KDropValue mo)) m in (m, mo, r)
               | _ => (m, mo, t)
